@@ -1083,3 +1083,10 @@ func pathBetweenThrough(a, b ssa.Instruction, pred func(ssa.Instruction) bool) b
 	}
 	return false
 }
+
+func ifs(c bool, a, b string) string {
+	if c {
+		return a
+	}
+	return b
+}
